@@ -831,12 +831,30 @@ func c18StartCs(cfg verifh.Cfg, dir string) (func(op []string) string, func()) {
 		}
 		return c18RsaOracle(k, secret)
 	}
-	mw := LimitContentSecurityHandler(limit, decrypters, time.Duration(tol)*time.Second, strict)
+	// user UnsignedCallbacks (they REPLACE the default one): none / one that writes nothing / one that writes 401 / two
+	var scbCount int
+	var cbs []UnsignedCallback
+	quietCb := func(w http.ResponseWriter, r *http.Request, next http.Handler, strict bool, code int) { scbCount++ }
+	switch k := cfg.Str("scb", "none"); k {
+	case "none":
+	case "quiet":
+		cbs = []UnsignedCallback{quietCb}
+	case "status":
+		cbs = []UnsignedCallback{func(w http.ResponseWriter, r *http.Request, next http.Handler, strict bool, code int) {
+			scbCount++
+			w.WriteHeader(http.StatusUnauthorized)
+		}}
+	case "two":
+		cbs = []UnsignedCallback{quietCb, quietCb}
+	default:
+		panic("c18: bad scb " + k)
+	}
+	mw := LimitContentSecurityHandler(limit, decrypters, time.Duration(tol)*time.Second, strict, cbs...)
 	if cfg.Str("ctor", "limit") == "plain" { // the constructor without a limit: the package's maxBytes
 		if limit != 1<<20 {
 			panic("c18: ctor=plain needs the default limit")
 		}
-		mw = ContentSecurityHandler(decrypters, time.Duration(tol)*time.Second, strict)
+		mw = ContentSecurityHandler(decrypters, time.Duration(tol)*time.Second, strict, cbs...)
 	}
 	wire := &c18Wire{}
 	step := func(op []string) string {
@@ -958,6 +976,7 @@ func c18StartCs(cfg verifh.Cfg, dir string) (func(op []string) string, func()) {
 			}
 			var got c18Got
 			inner := c18Inner(&got, reply, kv["hk"])
+			scbCount = 0
 			status, respBody := wire.send(kv["via"], c18Front(&got, mw(inner)), q)
 			if boundary && time.Now().Unix() != now && attempt < 5 {
 				continue // the second ticked while the request was being served: not a deterministic observation
@@ -968,9 +987,9 @@ func c18StartCs(cfg verifh.Cfg, dir string) (func(op []string) string, func()) {
 			if got.panicked {
 				status = "PANIC"
 			}
-			return fmt.Sprintf("now=%d p=%s q=%s cl=%d uripq=%s hdrs=%s rsa=%s aes=%s ran=%d status=%s seen=%s resp=%s",
+			return fmt.Sprintf("now=%d p=%s q=%s cl=%d uripq=%s hdrs=%s rsa=%s aes=%s ran=%d status=%s seen=%s resp=%s scb=%d",
 				now, c18Hex([]byte(got.path)), c18Hex([]byte(got.query)), got.cl, uriFact, c18HexList(got.csValues, secret), rsaFacts,
-				c18AesOracle(c18Unhex(kv["ak"]), body, respBody), got.ran, status, c18Hex(got.seen), c18Hex(respBody))
+				c18AesOracle(c18Unhex(kv["ak"]), body, respBody), got.ran, status, c18Hex(got.seen), c18Hex(respBody), scbCount)
 		}
 	}
 	return step, wire.close
@@ -1913,7 +1932,11 @@ func c18GenCs(r *verifh.Rng, plan *c18Plan, muts []c18CsMut, weights []int, forc
 	if limit == 1<<20 && r.Chance(1, 2) {
 		ctor = "plain" // ContentSecurityHandler(decrypters, tolerance, strict)
 	}
-	cfg := fmt.Sprintf("kind=cs strict=%d tol=%d limit=%d fps=%s ctor=%s", strict, tol, limit, fps, ctor)
+	scb := "none"
+	if forceLimit == 0 && r.Chance(1, 5) {
+		scb = r.PickS("quiet", "status", "two")
+	}
+	cfg := fmt.Sprintf("kind=cs strict=%d tol=%d limit=%d fps=%s ctor=%s scb=%s", strict, tol, limit, fps, ctor, scb)
 	var ops []string
 	nreq := r.Range(10, verifh.Scale(30, 45))
 	if n := 2 * len(limitMuts); nreq < n {
